@@ -1,8 +1,201 @@
-//! Family "mod2" (stub: not implemented yet).
-use crate::Ctx;
-use serde_json::Value;
+//! Family "mod2": `sux::utils::mod2_sys::{Modulo2Equation, Modulo2System}`
+//! (property C19, with C12 for systems outside the documented domain).
+//!
+//! Episode: `{"fam":"mod2","wt":"u8","nv":N,"eqs":[{"v":[vars],"c":[set bits]},...],"ops":[...]}`.
+//! The system of the episode is immutable; every operation works on a fresh
+//! instance built from it (the solvers mutate their receiver):
+//!
+//! * `solve {alg:"gauss"|"lazy", ctor:"push"|"parts"}` -> result `Ok(assignment)`
+//!   / `Err`, plus what `check` says about the returned assignment on a pristine
+//!   copy (`chk`) and on the instance the solver has worked on (`chkm`), and the
+//!   dimensions afterwards
+//! * `check {a}`  -> `check(a)` on a pristine instance
+//! * `dims`       -> `num_vars()`, `num_equations()`
+//! * `add {i, j}` -> `eqs[i].add(&eqs[j])`, observed through `Debug`
+//!
+//! Words (constants, assigned values) are lists of set-bit positions.
 
-pub fn run(_ep: &Value, _ctx: &mut Ctx) {
-    eprintln!("family mod2 not implemented");
-    std::process::exit(2);
+use crate::util::*;
+use crate::{guard, Ctx};
+use serde_json::{json, Value};
+use sux::traits::Word;
+use sux::utils::mod2_sys::{Modulo2Equation, Modulo2System};
+
+trait HW: Word + std::fmt::Debug {
+    fn from_u128(x: u128) -> Self;
+    fn to_u128(self) -> u128;
+}
+macro_rules! hw {
+    ($($t:ty),*) => {$(
+        impl HW for $t {
+            fn from_u128(x: u128) -> Self { x as $t }
+            fn to_u128(self) -> u128 { self as u128 }
+        }
+    )*};
+}
+hw!(u8, u16, u32, u64, u128, usize);
+
+fn eqs_of<W: HW>(ep: &Value) -> Vec<(Vec<u32>, W)> {
+    ep["eqs"]
+        .as_array()
+        .unwrap()
+        .iter()
+        .map(|e| {
+            let v: Vec<u32> = e["v"].as_array().unwrap().iter().map(|x| x.as_u64().unwrap() as u32).collect();
+            (v, W::from_u128(u128_of_bits(&e["c"])))
+        })
+        .collect()
+}
+
+fn sorted(v: &[u32]) -> bool {
+    v.windows(2).all(|w| w[0] <= w[1])
+}
+
+/// Builds the system of the episode. `from_parts` of an equation is unsafe
+/// with the contract "variables sorted": unsorted lists are never passed.
+fn build<W: HW>(nv: usize, eqs: &[(Vec<u32>, W)], parts: bool) -> Modulo2System<W> {
+    let it = eqs.iter().map(|(v, c)| {
+        assert!(sorted(v), "script error: unsorted variable list");
+        unsafe { Modulo2Equation::from_parts(v.clone(), *c) }
+    });
+    if parts {
+        unsafe { Modulo2System::from_parts(nv, it.collect()) }
+    } else {
+        let mut s = Modulo2System::<W>::new(nv);
+        for e in it {
+            s.push(e);
+        }
+        s
+    }
+}
+
+fn words<W: HW>(a: &[W]) -> Value {
+    Value::Array(a.iter().map(|w| json!(bits_of_u128(w.to_u128()))).collect())
+}
+
+fn assignment<W: HW>(v: &Value) -> Vec<W> {
+    v.as_array().unwrap().iter().map(|x| W::from_u128(u128_of_bits(x))).collect()
+}
+
+fn chk<W: HW>(s: &Modulo2System<W>, a: &[W]) -> Value {
+    match guard(|| s.check(a)) {
+        Ok(true) => json!("true"),
+        Ok(false) => json!("false"),
+        Err(_) => json!("panic"),
+    }
+}
+
+/// `Modulo2Equation { vars: [0, 3], c: 5 }`
+fn parse_eq(d: &str) -> Option<(Vec<u64>, u128)> {
+    let a = d.find("vars: [")? + 7;
+    let b = a + d[a..].find(']')?;
+    let vars: Vec<u64> = d[a..b]
+        .split(',')
+        .map(|x| x.trim())
+        .filter(|x| !x.is_empty())
+        .map(|x| x.parse().ok())
+        .collect::<Option<Vec<u64>>>()?;
+    let c0 = d.find("c: ")? + 3;
+    let t = &d[c0..];
+    let e = t.find(|c: char| !c.is_ascii_digit()).unwrap_or(t.len());
+    Some((vars, t[..e].parse().ok()?))
+}
+
+fn drive<W: HW>(ep: &Value, ctx: &mut Ctx) {
+    let nv = get_usize(ep, "nv");
+    let eqs = eqs_of::<W>(ep);
+    for op in ep["ops"].as_array().unwrap() {
+        ctx.begin(op);
+        let name = op["op"].as_str().unwrap();
+        let r: Result<Value, String> = match name {
+            "solve" => {
+                let parts = op["ctor"].as_str() == Some("parts");
+                let lazy = op["alg"].as_str() == Some("lazy");
+                let pristine = build::<W>(nv, &eqs, parts);
+                let mut sys = build::<W>(nv, &eqs, parts);
+                let r = guard(|| {
+                    if lazy {
+                        sys.lazy_gaussian_elimination()
+                    } else {
+                        sys.gaussian_elimination()
+                    }
+                });
+                r.map(|res| match res {
+                    Ok(a) => json!({
+                        "ok": true,
+                        "a": words(&a),
+                        "chk": chk(&pristine, &a),
+                        "chkm": chk(&sys, &a),
+                        "nvars": sys.num_vars(),
+                        "neqs": sys.num_equations(),
+                    }),
+                    Err(e) => json!({
+                        "ok": false,
+                        "a": [],
+                        "chk": "none",
+                        "chkm": "none",
+                        "err": format!("{}", e),
+                        "nvars": sys.num_vars(),
+                        "neqs": sys.num_equations(),
+                    }),
+                })
+            }
+            "check" => {
+                let sys = build::<W>(nv, &eqs, false);
+                let a = assignment::<W>(&op["a"]);
+                guard(|| sys.check(&a)).map(|b| json!({"res": b}))
+            }
+            "dims" => {
+                let sys = build::<W>(nv, &eqs, op["ctor"].as_str() == Some("parts"));
+                guard(|| (sys.num_vars(), sys.num_equations()))
+                    .map(|(a, b)| json!({"nvars": a, "neqs": b}))
+            }
+            "add" => {
+                let (i, j) = (get_usize(op, "i"), get_usize(op, "j"));
+                if i >= eqs.len() || j >= eqs.len() || !sorted(&eqs[i].0) || !sorted(&eqs[j].0) {
+                    Err("na".into())
+                } else {
+                    let mut a = unsafe { Modulo2Equation::from_parts(eqs[i].0.clone(), eqs[i].1) };
+                    let b = unsafe { Modulo2Equation::from_parts(eqs[j].0.clone(), eqs[j].1) };
+                    guard(|| {
+                        a.add(&b);
+                        format!("{:?}", a)
+                    })
+                    .map(|d| match parse_eq(&d) {
+                        Some((v, c)) => json!({"res": {"v": v, "c": bits_of_u128(c)}, "dbg": true}),
+                        None => json!({"res": {"v": [], "c": []}, "dbg": false, "text": d}),
+                    })
+                }
+            }
+            _ => Err("na".into()),
+        };
+        match r {
+            Ok(f) => ctx.emit(op, "ret", f),
+            Err(m) if m == "na" => ctx.emit(op, "na", json!({})),
+            Err(m) => ctx.emit(op, "panic", json!({"msg": m})),
+        }
+    }
+}
+
+pub fn run(ep: &Value, ctx: &mut Ctx) {
+    let wt = ep["wt"].as_str().unwrap_or("usize").to_string();
+    let bits = match wt.as_str() {
+        "u8" => 8,
+        "u16" => 16,
+        "u32" => 32,
+        "u128" => 128,
+        _ => 64,
+    };
+    let hdr = json!({"op": "BEGIN", "fam": "mod2", "src": ep.get("src").cloned().unwrap_or(json!("?")),
+                     "wt": wt, "W": bits, "nv": ep["nv"], "eqs": ep["eqs"]});
+    ctx.begin(&hdr);
+    ctx.emit(&hdr, "ret", json!({}));
+    match wt.as_str() {
+        "u8" => drive::<u8>(ep, ctx),
+        "u16" => drive::<u16>(ep, ctx),
+        "u32" => drive::<u32>(ep, ctx),
+        "u64" => drive::<u64>(ep, ctx),
+        "u128" => drive::<u128>(ep, ctx),
+        _ => drive::<usize>(ep, ctx),
+    }
 }
